@@ -982,6 +982,9 @@ func levelTableByEval(p *Prog, fi *FuncInfo, callee string, levels map[string]st
 	f := p.FlatInl(fi)
 	sites := f.CallSites(callee)
 	if len(sites) != 1 {
+		if os.Getenv("FSDBCHECK_DEBUG") != "" {
+			fmt.Println("DEBUG levelTableByEval", fi.Key, "call sites of", callee, ":", len(sites))
+		}
 		return nil, "", false
 	}
 	call := sites[0].Call
@@ -1029,6 +1032,9 @@ func levelTableByEval(p *Prog, fi *FuncInfo, callee string, levels map[string]st
 			}
 		}
 		if !reached {
+			if os.Getenv("FSDBCHECK_DEBUG") != "" {
+				fmt.Println("DEBUG levelTableByEval", fi.Key, name, "call not reached:", err, "stopped at", p.pos(f.Nodes[f.WalkStop].Ast))
+			}
 			return nil, "", false
 		}
 		// the filter as it is handed to the core: the value of the argument expression (a variable, or a call of
